@@ -40,16 +40,14 @@ structure St where
 
 def hex (n : Nat) : String := String.ofList (Nat.toDigits 16 n)
 
-def findRow (rows : List RowR) (ehOnly : Bool) (pc : Nat) : Option Row :=
-  match rows.find? (fun r => r.eh && r.lo ≤ pc && pc < r.hi) with
-  | some r => some r.row
-  | none => if ehOnly then none else (rows.find? (fun r => !r.eh && r.lo ≤ pc && pc < r.hi)).map (·.row)
+def findRow (rows : List RowR) (eh : Bool) (pc : Nat) : Option Row :=
+  (rows.find? (fun r => r.eh == eh && r.lo ≤ pc && pc < r.hi)).map (·.row)
 
 def regsOf (l : List (Nat × Nat)) : Regs := fun i => (l.find? (fun p => p.1 == i)).map (·.2)
 
 def envOf (s : St) : Env :=
-  { cfi := findRow s.rows false
-    cfiEh := findRow s.rows true
+  { cfiEh := findRow s.rows true
+    cfiDf := findRow s.rows false
     known := fun a => s.objs.any (fun o => o.1 ≤ a && a ≤ o.2)
     mem := fun a => s.mem.get? a }
 
@@ -142,7 +140,7 @@ def step (st : St) : List String → St × String
   | ["finfo", "env-err"] => (st, if st.fresh then "err" else "no-stop-env")
   | ["finfo"] =>
     if !st.fresh then (st, "no-stop-env") else
-    match frameInfo (envOf st) (regs0 st) st.pc0 st.selPc with
+    match frameInfo (envOf st) (regs0 st) st.pc0 st.selPc st.selNum with
     | .ok fi => (st, "fi " ++ toString fi.num ++ " " ++ hex fi.cfa ++ " " ++ (match fi.ret with | some r => hex r | none => "none"))
     | .error f => (st, showFault f)
   | ["regs", k] =>
